@@ -2,7 +2,7 @@
 import json
 import os
 
-from .. import alloc_stream, common, sched_stream
+from .. import alloc_stream, common, sched_stream, zoo
 
 PROP = "C20"
 LEVEL = "proof"
@@ -39,15 +39,201 @@ def judge_stats(r):
     return problems
 
 
+def judge_leaks(r):
+    """the clause "garbage is reclaimed": every block the allocator lets go of is handed back to the system.
+    Judged from the checking global allocator's own table of live blocks (harness/src/chkalloc.rs, leakchk.rs),
+    never from the allocator's figures: (1) blocks owned before the forced full collection and not owned after it
+    must not be live any more; (2) after the vm is dropped none of the blocks it owned may be live; (3) what the
+    system allocator holds after the vm and everything the run created are gone equals what it held before the run
+    (a non-zero difference is measured again on a second run in the same process, so one-time initialisations of
+    the process do not count)."""
+    problems = []
+    a = r.get("released_by_full")
+    if a and a["unreleased"]:
+        problems.append("the forced full collection dropped %d of the %d blocks the allocator owned; %d of them were never handed back to the system allocator (first: %s)"
+                        % (a["dropped"], a["owned_before"], a["unreleased"], a["first"]))
+    b = r.get("released_by_teardown")
+    if b and b["unreleased"]:
+        problems.append("%d of the %d blocks the allocator owned when the vm was dropped were never handed back to the system allocator (first: %s)"
+                        % (b["unreleased"], b["owned"], b["first"]))
+    g = r.get("global_leak")
+    if g and g["judged"] and (g["blocks"] or g["bytes"]):
+        problems.append("after the vm and everything the run created were dropped the system allocator holds %d blocks / %d bytes more than immediately before the run "
+                        "(second run in the same process: %s; sizes of some of these blocks: %s)" % (g["blocks"], g["bytes"], g["rerun"], g["sizes"]))
+    return problems
+
+
+def leak_probe(src, opts, tag="probe"):
+    """run one program text under vh_runchk with the given option words; returns (record, leak problems)"""
+    d = os.path.join(common.VERIF, "work", "c20_leak")
+    os.makedirs(d, exist_ok=True)
+    f = os.path.join(d, "%s.lay" % tag)
+    open(f, "w").write(src)
+    r = common.run_batch(["%s %s" % (opts, f)], bin="vh_runchk", timeout=600)[0]
+    return r, judge_leaks(r)
+
+
+def shrink_leak(src, opts, budget=160):
+    """delta-debugging over the lines of a leaking program: keep a candidate while it still leaks"""
+    lines = src.split("\n")
+    n = 2
+    probes = 0
+    while len(lines) >= 2 and probes < budget:
+        size = max(1, len(lines) // n)
+        removed = False
+        for i in range(0, len(lines), size):
+            cand = lines[:i] + lines[i + size:]
+            probes += 1
+            if cand and leak_probe("\n".join(cand), opts, "shrink")[1]:
+                lines = cand
+                n = max(2, n - 1)
+                removed = True
+                break
+            if probes >= budget:
+                break
+        if not removed:
+            if size == 1:
+                break
+            n = min(len(lines), n * 2)
+    return "\n".join(lines)
+
+
+def corpus_cases():
+    """minimised past failures (corpus/C20/*.json: {"program", "opts"}); C20_NO_CORPUS=1 leaves them out"""
+    d = os.path.join(common.VERIF, "corpus", PROP)
+    if os.environ.get("C20_NO_CORPUS") or not os.path.isdir(d):
+        return []
+    out = []
+    for fn in sorted(os.listdir(d)):
+        if fn.endswith(".json"):
+            c = json.load(open(os.path.join(d, fn)))
+            if "program" in c:
+                out.append((fn, c["program"], c.get("opts", "--stats --gc every:3 --steps 300000")))
+    return out
+
+
+# Kind/size-class of owned blocks (harness/src/leakchk.rs) that the stream is expected to create AND see released by a
+# collection; the evidence lists the ones it did not reach
+EXPECTED_CLASSES = ["List/0", "List/small", "List/big", "ListStub/0", "ListStub/small", "ListStub/big", "Tuple/0", "Tuple/small", "Tuple/big",
+                    "Map/0", "Map/small", "Map/big", "String/small", "String/big", "Instance/0", "Instance/small", "Instance/big",
+                    "Closure/0", "Closure/small", "Closure/big", "Channel/fixed", "Class/fixed", "Enumerator/fixed", "Method/fixed",
+                    "LyBox/fixed", "Boxed/fixed"]
+
+
 def grown_program(rng):
     """lists that outgrow their block several times while the old blocks are still referenced from
     module variables, fields, map values, captured variables and other lists"""
     n = rng.choice([5, 9, 17, 33, 70, 150])
     holder = rng.choice(["let h = [a];", "let h = {\"k\": a};", "class H { init(v) { self.v = v; } }\nlet h = H(a);",
                          "let h = || a;", "let h = (a, nil);", "let h = [[a]];"])
-    return ("let a = %s;\n%s\nlet b = a;\nfor i in %d.times() { a.push(i); }\n"
-            "let junk = [];\nfor i in %d.times() { junk = [i, \"j${i}\"]; }\nprint(a.len());\nprint(b.len());\n"
-            % (rng.choice(["[]", "[1]", "[1, 2, 3, 4]"]), holder, n, rng.randint(10, 60)))
+    # half of the programs do all this inside a function: the moved list, its stubs and the holder are garbage afterwards
+    shape = ("let a = %s;\n%s\nlet b = a;\nfor i in %d.times() { a.push(i); }\n"
+             "let junk = [];\nfor i in %d.times() { junk = [i, \"j${i}\"]; }\nprint(a.len());\nprint(b.len());\n")
+    if rng.random() < 0.5:
+        shape = ("fn body() {\n" + shape + "}\nbody();\nbody();\nlet junk2 = [];\nfor i in 12.times() { junk2 = [i, \"q${i}\"]; }\n")
+    return (shape
+            % (rng.choice(["[]", "[1]", "[1, 2, 3, 4]", "[].iter().into(List.collect)", "List.collect(0.times())", "[7, 8].iter().take(0).list()",
+                           "[1, 2, 3].slice(1, 1)", "{}.iter().into(List.collect)", "[3].iter().filter(|x| x > 5).into(List.collect)"]),
+               holder, n, rng.randint(10, 60)))
+
+
+def program_stream(ctx, mult=1, broken=None):
+    """stream (b); `mult` > 1: the search for a concrete input after a broken proof obligation.  False after a reported violation."""
+    # (b) programs under the checking global allocator: layouts of releases, stats after a forced full collection, and the
+    # leak oracle (every block the allocator lets go of is handed back to the system allocator)
+    files = sched_stream.write_generated(ctx, ctx.n(80, 1500) * mult, "gen") + sched_stream.write_zoo(ctx, ctx.n(60, 1500) * mult) + sched_stream.fixture_programs(ctx.n(200, None))
+    import random
+    rng = random.Random(ctx.seed * 77 + 20)
+    gd = os.path.join(common.VERIF, "work", "c20_grown_%s" % ctx.tier)
+    os.makedirs(gd, exist_ok=True)
+    own = []          # programs that are also run with no collection before the forced one (all their garbage is dropped by it)
+    for k in range(ctx.n(40, 600) * mult):
+        f = os.path.join(gd, "g%d.lay" % k)
+        open(f, "w").write(grown_program(rng))
+        own.append(f)
+    dd = os.path.join(common.VERIF, "work", "c20_degenerate_%s" % ctx.tier)
+    os.makedirs(dd, exist_ok=True)
+    rng2 = random.Random(ctx.seed * 911 + 3)
+    for k in range(ctx.n(150, 3000) * mult):
+        f = os.path.join(dd, "d%d.lay" % k)
+        open(f, "w").write(zoo.degenerate_program(rng2))
+        own.append(f)
+    zoo_files = [f for f in files if os.sep + "c20_zoo_" in f]
+    files += own
+    reqs = []
+    texts = {}
+    for fn, prog, opts in corpus_cases():
+        cd = os.path.join(common.VERIF, "work", "c20_corpus")
+        os.makedirs(cd, exist_ok=True)
+        f = os.path.join(cd, fn[:-5] + ".lay")
+        open(f, "w").write(prog)
+        reqs.append((opts, f))
+    reqs += [("--stats --gc every:%d --steps 300000" % (3 + (i % 5)), f) for i, f in enumerate(files)]
+    reqs += [("--stats --gc never --steps 300000", f) for f in own + zoo_files]
+    # crash-isolated shards; the mismatch counter of the checking allocator is per process, so it is compared per shard
+    recs = common.run_batch(["%s %s" % q for q in reqs], bin="vh_runchk", timeout=3000)
+    checked = 0
+    crashed = 0
+    leak_judged = 0
+    classes = {}
+    dropped_by_full = 0
+    for (opts, f), r in zip(reqs, recs):
+        if r["status"].startswith("CRASH"):
+            crashed += 1        # host crashes are C16's subject; here they only cost coverage (counted in the evidence)
+            continue
+        mis = int(r.get("layout_mismatches", 0))
+        if mis != 0:
+            ctx.cov["impl_vs_spec_failures"] += 1
+            ctx.violation("layout", {"kind": "implementation-vs-spec", "what": "a block was released with a size/alignment other than the one it was obtained with",
+                                     "file": r["file"], "program": open(r["file"]).read()[:20000], "run": "vh_runchk: %s <program>" % opts})
+            return False
+        leaks = judge_leaks(r)
+        if leaks:
+            ctx.cov["impl_vs_spec_failures"] += 1
+            src = open(f).read()
+            small = shrink_leak(src, opts)
+            r2, leaks2 = leak_probe(small, opts, "min")
+            if not leaks2:
+                small, r2, leaks2 = src, r, leaks
+            ctx.violation("leak", {"kind": "implementation-vs-spec",
+                                   "what": "garbage is not reclaimed: " + "; ".join(leaks2),
+                                   "program": small, "opts": opts, "original_file": f, "original_problems": leaks,
+                                   "released_by_full": r2.get("released_by_full"), "released_by_teardown": r2.get("released_by_teardown"),
+                                   "global_leak": r2.get("global_leak"), "block_classes": r2.get("block_classes"),
+                                   "run": "vh_runchk: %s <program>" % opts,
+                                   **({"found_by_search_after_broken_obligation": broken} if broken else {})})
+            return False
+        if r.get("global_leak", {}).get("judged"):
+            leak_judged += 1
+        for k, v in (r.get("block_classes") or {}).items():
+            c = classes.setdefault(k, [0, 0, 0, 0])
+            for j in range(4):
+                c[j] += v[j]
+        dropped_by_full += (r.get("released_by_full") or {}).get("dropped", 0)
+        st = r.get("stats_after_full")
+        if not st:
+            continue
+        checked += 1
+        ctx.count_case((opts, r["file"]), nontrivial=st["gc_count"] > 1 or (r.get("released_by_full") or {}).get("dropped", 0) > 0)
+        problems = judge_stats(r)
+        en = r.get("stats_end")
+        if problems:
+            ctx.cov["impl_vs_spec_failures"] += 1
+            ctx.violation("stats", {"kind": "implementation-vs-spec", "what": "; ".join(problems), "file": r["file"],
+                                    "program": open(r["file"]).read()[:20000], "stats_after_full": st, "stats_end": en})
+            return False
+    ctx.stream_stat("programs", programs=len(files), with_stats=checked, records=len(recs), host_crashes=crashed)
+    # coverage of the leak oracle: per Kind/size-class [owned before the forced collection, dropped by it, dropped with the vm, not handed back]
+    released = sorted(k for k, v in classes.items() if v[1] > 0)
+    ctx.stream_stat("leak_oracle", records_judged_after_teardown=leak_judged, blocks_dropped_by_forced_full_collections=dropped_by_full,
+                    blocks_dropped_at_teardown=sum(v[2] for v in classes.values()),
+                    classes_allocated_and_released_by_a_collection="%d of %d expected" % (len([k for k in EXPECTED_CLASSES if k in released]), len(EXPECTED_CLASSES)),
+                    expected_classes_not_released_by_a_collection=[k for k in EXPECTED_CLASSES if k not in released],
+                    only_released_at_teardown=sorted(k for k, v in classes.items() if v[1] == 0 and v[2] > 0))
+    ctx.cov["streams"]["block_classes"] = {k: {"owned_before_forced_full": v[0], "dropped_by_forced_full": v[1], "dropped_at_teardown": v[2], "not_handed_back": v[3]}
+                                           for k, v in sorted(classes.items())}
+    ctx.sample({"degenerate_program": zoo.degenerate_program(random.Random(ctx.seed))[:3000]})
+    return True
 
 
 def run(ctx):
@@ -59,55 +245,21 @@ def run(ctx):
         return
     ctx.cov["rule"] = ("(a) allocator histories with forced nursery/full collections judged by an accounting monitor (bytes = sum of owned sizes after "
                        "every collection, owned = reachable and intern = live strings after a full one, next_gc = 2x, every release with the layout of "
-                       "its allocation); (b) real programs run under the layout-checking allocator with stats taken after a forced full collection; "
+                       "its allocation); (b) real programs run under the checking global allocator with stats taken after a forced full collection, and the leak "
+                       "oracle from the global allocator's own table of live blocks: every block dropped by the forced full collection and every block owned "
+                       "at teardown is gone from it, and after teardown it holds exactly what it held before the run; "
                        "(c) steady-state loops: the retained size after n and 2n garbage-producing iterations must be equal and next_gc stay bounded; "
                        "non-trivial = history/program with at least one collection")
     if not proved:
         what, detail = ctx.broken
-        ok = alloc_stream.run_stream(ctx, ctx.n(600, 4000), 150, "C20")
+        ok = alloc_stream.run_stream(ctx, ctx.n(600, 4000), 150, "C20") and program_stream(ctx, mult=3, broken=str(what))
         if ok:
             ctx.violation("proof", {"kind": "proof-obligation-failed", "broken": what, "detail": detail}, no_input=True)
         return
     if not alloc_stream.run_stream(ctx, ctx.n(200, 5000), ctx.n(120, 300), "C20"):
         return
-    # (b) programs under the layout-checking allocator, stats after a forced full collection
-    files = sched_stream.write_generated(ctx, ctx.n(80, 1500), "gen") + sched_stream.write_zoo(ctx, ctx.n(60, 1500)) + sched_stream.fixture_programs(ctx.n(200, None))
-    import random
-    rng = random.Random(ctx.seed * 77 + 20)
-    gd = os.path.join(common.VERIF, "work", "c20_grown_%s" % ctx.tier)
-    os.makedirs(gd, exist_ok=True)
-    for k in range(ctx.n(40, 600)):
-        f = os.path.join(gd, "g%d.lay" % k)
-        open(f, "w").write(grown_program(rng))
-        files.append(f)
-    reqs = ["--stats --gc every:%d --steps 300000 %s" % (3 + (i % 5), f) for i, f in enumerate(files)]
-    # crash-isolated shards; the mismatch counter of the checking allocator is per process, so it is compared per shard
-    recs = common.run_batch(reqs, bin="vh_runchk", timeout=3000)
-    checked = 0
-    crashed = 0
-    for r in recs:
-        if r["status"].startswith("CRASH"):
-            crashed += 1        # host crashes are C16's subject; here they only cost coverage (counted in the evidence)
-            continue
-        mis = int(r.get("layout_mismatches", 0))
-        if mis != 0:
-            ctx.cov["impl_vs_spec_failures"] += 1
-            ctx.violation("layout", {"kind": "implementation-vs-spec", "what": "a block was released with a size/alignment other than the one it was obtained with",
-                                     "file": r["file"], "program": open(r["file"]).read()[:20000], "run": "vh_runchk: --stats --gc every:3 <program>"})
-            return
-        st = r.get("stats_after_full")
-        if not st:
-            continue
-        checked += 1
-        ctx.count_case(r["file"], nontrivial=st["gc_count"] > 1)
-        problems = judge_stats(r)
-        en = r.get("stats_end")
-        if problems:
-            ctx.cov["impl_vs_spec_failures"] += 1
-            ctx.violation("stats", {"kind": "implementation-vs-spec", "what": "; ".join(problems), "file": r["file"],
-                                    "program": open(r["file"]).read()[:20000], "stats_after_full": st, "stats_end": en})
-            return
-    ctx.stream_stat("programs", programs=len(files), with_stats=checked, records=len(recs), host_crashes=crashed)
+    if not program_stream(ctx):
+        return
     # (c) steady state
     d = os.path.join(common.VERIF, "work", "c20_loops")
     os.makedirs(d, exist_ok=True)
@@ -141,6 +293,8 @@ def run(ctx):
     ctx.assumptions += [
         "the allocator model is hand-written; agreement is checked on the alloc stream",
         "the layout check trusts the harness' GlobalAlloc wrapper (records size/align per live block)",
+        "the leak oracle observes the forced full collection and the teardown block by block, and every other collection of a run through the "
+        "system allocator's total after teardown (exactly 0 blocks / 0 bytes more than before the run); runs that end in a host panic are not judged",
         "the bounded-heap corollary is checked on steady-state loops, not proved",
     ]
 
@@ -154,6 +308,19 @@ def replay(path):
         for o, x in zip(r["ops"] + ["collect full", "stats", "layout"], out):
             print("%-24s %s" % (o, x))
         return 1
+    if "program" in r and "opts" in r:
+        # a leak case (or a corpus entry): the same program under the same options
+        common.cargo_build(bin="vh_runchk")
+        a, probs = leak_probe(r["program"], r["opts"], "replay")
+        if a.get("stats_after_full"):
+            probs = probs + judge_stats(a)
+        if int(a.get("layout_mismatches", 0)):
+            probs.append("%s blocks released with a layout other than the one they were obtained with" % a["layout_mismatches"])
+        print(r["opts"], a["status"], "released_by_full=%s released_by_teardown=%s global_leak=%s" % (
+            a.get("released_by_full"), a.get("released_by_teardown"), a.get("global_leak")))
+        for p_ in probs:
+            print("  " + p_)
+        return 1 if probs else 0
     if "program" in r:
         tmp = os.path.join(common.VERIF, "work", "c20_replay.lay")
         os.makedirs(os.path.dirname(tmp), exist_ok=True)
@@ -162,7 +329,7 @@ def replay(path):
         bad = 0
         for k in (3, 4, 5, 6, 7):
             a = common.run_batch(["--stats --gc every:%d --steps 300000 %s" % (k, tmp)], bin="vh_runchk")[0]
-            probs = judge_stats(a) if a.get("stats_after_full") else ["no stats: " + a["status"]]
+            probs = (judge_stats(a) if a.get("stats_after_full") else ["no stats: " + a["status"]]) + judge_leaks(a)
             if int(a.get("layout_mismatches", 0)):
                 probs.append("%s blocks released with a layout other than the one they were obtained with" % a["layout_mismatches"])
             print("every:%d" % k, a["status"], a.get("stats_after_full"), a.get("block_sizes"), probs)
